@@ -20,8 +20,23 @@ def run_rule(ctx, models):
                   getattr(m, "services_ref", {}), getattr(m, "services_var", {})):
             reg.update(d)
         bad = []
-        for dn, disc in m.discrete.items():
+        comps = list(m.discrete.items())
+        # blocks (recursively) hold the same kind of references
+        from andes.core.block import Block
+
+        def blocks_of(obj, prefix, seen):
+            if id(obj) in seen:
+                return
+            seen.add(id(obj))
+            for k_, v_ in vars(obj).items():
+                if isinstance(v_, Block):
+                    yield prefix + k_, v_
+                    yield from blocks_of(v_, prefix + k_ + ".", seen)
+        comps += list(blocks_of(m, "", set()))
+        for dn, disc in comps:
             for an, obj in vars(disc).items():
+                if isinstance(disc, Block) and getattr(obj, "owner", None) is not m:
+                    continue
                 if not (isinstance(obj, (BaseParam, BaseService, BaseVar)) and getattr(obj, "name", None)):
                     continue
                 n += 1
@@ -29,7 +44,7 @@ def run_rule(ctx, models):
                 if cur is not None and cur is not obj:
                     bad.append("%s.%s is bound to a %s named `%s` that is no longer the model's `%s` (now a %s)" % (
                         dn, an, type(obj).__name__, obj.name, obj.name, type(cur).__name__))
-        if bad or m.discrete:
+        if bad or comps:
             ctx.check(not bad, "C05.bindings", name, "every named object a discrete component refers to is the model's registered object of that name",
                       "; ".join(bad[:2]) + " -- the old object is never evaluated (value 0): the limiter works with limits [0, 0] and the model starts "
                       "off its equilibrium while the initialisation test passes", locate(m, list(m.discrete)[0]) if m.discrete else "")
